@@ -6,6 +6,7 @@ except, for `key_length`, that the MAC returns 32 bytes); scalars, publics and n
 all `uint32` / `uint64` values.
 -/
 import EphVerif.Lemmas.C12
+import EphVerif.Lemmas.C12Prime
 import EphVerif.Proofs.C19
 
 namespace EphVerif.C12
@@ -16,9 +17,10 @@ open EphVerif.Kex EphVerif.C12L EphVerif.Gen
 /-- the group of the code is the group of the property: `p = 2^31 − 1`, generator 5 -/
 theorem group_constants : C12.kPrime = Spec.Kex.p ∧ C12.kGenerator = Spec.Kex.g ∧ Spec.Kex.p = 2 ^ 31 - 1 := by decide
 
-/-- `p` is prime (trial division by every `d` with `d² ≤ p`); not needed by the theorems below,
-    recorded because the property calls it a Diffie-Hellman group -/
-theorem p_prime_trial : ∀ d < 46341, 2 ≤ d → Spec.Kex.p % d ≠ 0 := by decide +kernel
+/-- `p` is prime (trial division by every `d` with `d² ≤ p`, `Lemmas/C12Prime.lean`); not needed by
+    the theorems below, recorded because the property calls it a Diffie-Hellman group -/
+theorem p_prime_trial : ∀ d < 46341, 2 ≤ d → Spec.Kex.p % d ≠ 0 :=
+  fun d h h2 => mersenne31_no_small_divisor d h2 h
 
 theorem p_prime (d : Nat) (h2 : 2 ≤ d) (hd : d ∣ Spec.Kex.p) : d = Spec.Kex.p := by
   obtain ⟨q, hq⟩ := hd
